@@ -10,6 +10,8 @@
 From Coq Require Import List NArith Bool String Arith.
 From Verif Require Import Sni.SchedSkel Sni.Shutdown Sni.ShutdownProofs Sni.ShutdownCfg Sni.ShutdownGen Gen.TransportSkel.
 From Verif Require Import Sni.ShutdownEndpoint Sni.ShutdownEndpointProofs.
+From Verif Require Import Sni.DialSkel Sni.ShutdownDial Sni.ShutdownDialProofs Sni.ShutdownDialGen Gen.DialSkel.
+From Verif Require Sni.Mailbox Sni.MailboxProofs Sni.ShutdownSide.
 Import ListNotations.
 Local Open Scope N_scope.
 
@@ -178,6 +180,173 @@ Theorem C04_endpoint_bounded_own_steps : forall acts s s' t x,
 Proof. exact (ShutdownEndpointProofs.bounded_own_steps gen_ecfg). Qed.
 Print Assumptions C04_endpoint_bounded_own_steps.
 
+(** ** The endpoint's serve loop, connection set and dial handlers
+    (Sni/ShutdownDial.v; sendAccept's arms, the capacity of the backlog and
+    the exits of handleDial that close the connection are read off the source) *)
+
+(** endpointServer.handleDial, executed symbolically statement by statement
+    as the translator extracted it: every exit after a failed acceptConn and
+    every exit after a failed conns.add leaves the connection closed; the
+    exit that registered it in the connection set does not close it. *)
+Theorem C04_dial_handler_closes_unregistered :
+  dshape_of gen_handleDial = Some good_shape /\ shape_closes gen_dshape = true.
+Proof. exact (conj gen_dshape_good gen_dshape_closes). Qed.
+Print Assumptions C04_dial_handler_closes_unregistered.
+
+(** Ownership, in every reachable state -- any number of dials, any
+    interleaving of the handlers waiting in sendAccept, the serve loop's
+    exit and the shutdown of the set, Accept calls, Endpoint.Close, reads,
+    writes and closes from the peer: a connection that Accept has handed to
+    the application (or that waits in the backlog) is closed, or its handler
+    has not yet finished conns.add, or it is in the connection set and the
+    set's cleanup has not passed it yet. *)
+Theorem C04_dial_handed_owned : forall s h,
+  dreachable gen_ecfg gen_dshape s -> In h (d_handed s) \/ In h (d_incoming s) ->
+  In h (d_closed s) \/
+  (exists x, getn h (d_handlers s) = Some x /\ (h_pc x = HAdd \/ h_pc x = HAddFailed)) \/
+  (In h (d_set s) /\ (d_set_closed s = false \/ In h (d_snap s))).
+Proof. exact (handed_owned gen_ecfg gen_dshape gen_dshape_closes). Qed.
+Print Assumptions C04_dial_handed_owned.
+
+(** Once cleanup() has run, the connection of a handler that has returned is closed. *)
+Theorem C04_dial_finished_handler_closed : forall s h x,
+  dreachable gen_ecfg gen_dshape s -> d_serve s = LWait \/ d_serve s = LDone ->
+  getn h (d_handlers s) = Some x -> h_pc x = HDone -> In h (d_closed s).
+Proof. exact (finished_handler_closed gen_ecfg gen_dshape gen_dshape_closes). Qed.
+Print Assumptions C04_dial_finished_handler_closed.
+
+(** When the endpoint's serve loop has returned (Endpoint.serveDone is
+    closed), every connection Accept ever handed to the application is
+    closed: its reads and writes end.  So is every connection still in the
+    backlog, and every connection any dial handler created. *)
+Theorem C04_dial_handed_connections_closed : forall s h,
+  dreachable gen_ecfg gen_dshape s -> d_serve s = LDone ->
+  In h (d_handed s) \/ In h (d_incoming s) -> In h (d_closed s).
+Proof. exact (handed_closed_when_done gen_ecfg gen_dshape gen_dshape_closes). Qed.
+Print Assumptions C04_dial_handed_connections_closed.
+
+Theorem C04_dial_created_connections_closed : forall s h x,
+  dreachable gen_ecfg gen_dshape s -> d_serve s = LDone ->
+  getn h (d_handlers s) = Some x -> In h (d_closed s).
+Proof. exact (created_closed_when_done gen_ecfg gen_dshape gen_dshape_closes). Qed.
+Print Assumptions C04_dial_created_connections_closed.
+
+(** And the serve loop does return.  Once it has left its loop (connection
+    lost, kicked, shut down), as long as it has not returned one of the
+    endpoint's own goroutines -- serve's deferred cleanup, a dial handler (if
+    need be after its sendAccept timer), a read / write / close handler --
+    can take a step: they never all wait for each other, or for the
+    application to call Accept or Close, or for the peer ... *)
+Theorem C04_dial_no_deadlock : forall s,
+  dreachable gen_ecfg gen_dshape s -> d_serve s <> LRun -> d_serve s <> LDone ->
+  exists a s', internal a = true /\ dstep gen_ecfg gen_dshape s a = Some s'.
+Proof. exact (no_deadlock_reachable gen_ecfg gen_dshape gen_dshape_closes gen_send_timer). Qed.
+Print Assumptions C04_dial_no_deadlock.
+
+(** ... and along any execution, whatever else happens in between, they take
+    at most [dmeasure] steps altogether. *)
+Theorem C04_dial_internal_steps_bounded : forall acts s s',
+  d_serve s <> LRun -> dexec gen_ecfg gen_dshape s acts = Some s' ->
+  (dmeasure s' + count_internal acts <= dmeasure s)%nat /\ d_serve s' <> LRun.
+Proof. exact (internal_steps_bounded gen_ecfg gen_dshape). Qed.
+Print Assumptions C04_dial_internal_steps_bounded.
+
+(** Together: from every reachable state in which the loop has been left,
+    internal steps alone lead to serve having returned, and there every
+    connection handed to the application is closed. *)
+Theorem C04_dial_serve_returns : forall s,
+  dreachable gen_ecfg gen_dshape s -> d_serve s <> LRun ->
+  exists acts s', forallb internal acts = true /\ dexec gen_ecfg gen_dshape s acts = Some s' /\
+                  d_serve s' = LDone /\
+                  forall h, In h (d_handed s') \/ In h (d_incoming s') -> In h (d_closed s').
+Proof. exact (serve_returns gen_ecfg gen_dshape gen_dshape_closes gen_send_timer). Qed.
+Print Assumptions C04_dial_serve_returns.
+
+(** The seeded change C04-e (handleDial without a close after a failed
+    conns.add), kept as a counter-model: its statements yield the shape
+    [seeded_shape], and with that shape there is a schedule -- backlog full,
+    one dial waiting in sendAccept, the tunnel lost, the set shut down, the
+    application accepting -- after which serve has returned, connection 11 is
+    with the application and is never closed, whatever happens afterwards. *)
+Theorem C04_dial_seeded_change_leaks :
+  dshape_of seeded_handleDial = Some seeded_shape /\
+  exists s, dexec gen_ecfg seeded_shape dinit leak_schedule = Some s /\
+    d_serve s = LDone /\ In 11 (d_handed s) /\ ~ In 11 (d_closed s) /\
+    forall acts s', dexec gen_ecfg seeded_shape s acts = Some s' -> ~ In 11 (d_closed s').
+Proof. exact (conj seeded_shape_is seeded_leaks). Qed.
+Print Assumptions C04_dial_seeded_change_leaks.
+
+(** ** Side modes: the side connection of a dial that fails after the delivery
+    (Sni/ShutdownSide.v over the mail-office model of Sni/Mailbox.v) *)
+
+(** cleanUp takes its box out of the office's map ... *)
+Theorem C04_side_cleanup_unmaps : forall o h o' v b,
+  MailboxProofs.oinv o -> nth_error (Mailbox.o_boxes o) h = Some b ->
+  Mailbox.step o (Mailbox.OCleanUp h) = (o', v) -> ShutdownSide.unmapped o' h.
+Proof. exact ShutdownSide.cleanup_unmaps. Qed.
+Print Assumptions C04_side_cleanup_unmaps.
+
+(** ... and from then on no operation of anybody (other dials, side
+    websockets arriving with any id and key, other cleanUps) changes what is
+    in that box's channel: looking into it after office.remove is final. *)
+Theorem C04_side_no_delivery_after_cleanup : forall ps o o' vs h,
+  ShutdownSide.unmapped o h -> (h < List.length (Mailbox.o_boxes o))%nat ->
+  (forall pc, ~ In (Mailbox.OReceive h pc) ps) ->
+  Mailbox.run o ps = (o', vs) ->
+  ShutdownSide.chan_of o' h = ShutdownSide.chan_of o h /\ ShutdownSide.unmapped o' h.
+Proof. exact ShutdownSide.no_delivery_after_cleanup. Qed.
+Print Assumptions C04_side_no_delivery_after_cleanup.
+
+(** Dial's deferred discard (cleanUp, then the drain) closes a connection
+    that was delivered and never received: Server.serveBackSide's wait ends. *)
+Theorem C04_side_orphan_closed : forall s h tag,
+  ShutdownSide.chan_of (ShutdownSide.s_office s) h = Some (Some tag) ->
+  ShutdownSide.wait_enabled (ShutdownSide.sstep true s (Mailbox.OCleanUp h)) tag = true.
+Proof. exact ShutdownSide.drained_orphan_closed. Qed.
+Print Assumptions C04_side_orphan_closed.
+
+(** The deferred cleanUp without the drain (the shape before the repair),
+    kept as a counter-model: new box, delivery,
+    the dial fails; the connection stays in a box nobody can reach and
+    serveBackSide's wait is never enabled, whatever happens afterwards. *)
+Theorem C04_side_old_cleanup_refuted :
+  let s := ShutdownSide.srun false (ShutdownSide.mkS Mailbox.office_init []) ShutdownSide.failed_dial in
+  ShutdownSide.chan_of (ShutdownSide.s_office s) 0 = Some (Some 7) /\
+  ShutdownSide.unmapped (ShutdownSide.s_office s) 0 /\
+  forall ps, (forall pc, ~ In (Mailbox.OReceive 0 pc) ps) ->
+    ShutdownSide.chan_of (ShutdownSide.s_office (ShutdownSide.srun false s ps)) 0 = Some (Some 7) /\
+    ShutdownSide.wait_enabled (ShutdownSide.srun false s ps) 7 = false.
+Proof. exact ShutdownSide.old_cleanup_refuted. Qed.
+Print Assumptions C04_side_old_cleanup_refuted.
+
+(** The tie of this part to the source. *)
+Theorem C04_dial_source_shape :
+  dshape_of gen_handleDial = Some good_shape /\
+  sshape_of gen_handleDialSide2 = Some (mkSShape true false true) /\
+  has_arm (ARecv "timer.C") (send_arms gen_ecfg) = true /\
+  skel_is gen_transport_skel "connections.add" frozen_connsAdd = true /\
+  skel_is gen_transport_skel "connections.get" frozen_connsGet = true /\
+  skel_is gen_transport_skel "connections.remove" frozen_connsRemove = true /\
+  skel_is gen_transport_skel "connections.shutdown" frozen_connsShutdown = true /\
+  skel_is gen_transport_skel "endpointServer.cleanup" frozen_epsCleanup = true /\
+  skel_is gen_transport_skel "endpointServer.serve" frozen_epsServe = true /\
+  skel_is gen_transport_skel "endpointServer.findSession" frozen_findSession = true /\
+  skel_is gen_transport_skel "endpointServer.handleClose" frozen_handleClose = true /\
+  skel_is gen_transport_skel "newConnection" frozen_newConnection = true /\
+  skel_is gen_transport_skel "connection.cleanup" frozen_connCleanup = true /\
+  skel_is gen_transport_skel "connMailBox.cleanUp" frozen_mailboxCleanUp = true /\
+  skel_is gen_transport_skel "connMailBox.discard" frozen_mailboxDiscard = true /\
+  points_of "sideConn.wait" gen_transport_blocking = [[ARecv "ctx.Done()"; ARecv "c.closed"]]%string /\
+  skel_is gen_transport_skel "Server.serveBackSide" frozen_serveBackSide = true.
+Proof.
+  exact (conj gen_dshape_good (conj gen_sshape_good (conj gen_send_timer (conj gen_connsAdd_frozen
+        (conj gen_connsGet_frozen (conj gen_connsRemove_frozen (conj gen_connsShutdown_frozen
+        (conj gen_epsCleanup_frozen (conj gen_epsServe_frozen (conj gen_findSession_frozen
+        (conj gen_handleClose_frozen (conj gen_newConnection_frozen (conj gen_connCleanup_frozen
+        (conj gen_mailboxCleanUp_frozen (conj gen_mailboxDiscard_frozen (conj gen_sideWait_arms gen_serveBackSide_frozen)))))))))))))))).
+Qed.
+Print Assumptions C04_dial_source_shape.
+
 (** The pinned tree's configuration, kept as a counter-model: serve exits,
     closeAll's tunnel.Close enqueues its call and is never enabled again, so
     the front connection is never closed; and a reply frame after a failed
@@ -326,3 +495,36 @@ Example C04_ex_endpoint_threads :
   | None => False
   end.
 Proof. vm_compute. repeat split. Qed.
+
+(** The schedule that leaks a connection with the seeded change's shape, run
+    with the shape of the current source: serve returns, the application
+    holds eleven connections, all closed. *)
+Example C04_ex_backlog_schedule_closes :
+  match dexec gen_ecfg gen_dshape dinit leak_schedule with
+  | Some s => d_serve s = LDone /\ List.length (d_handed s) = 11%nat /\
+              forallb (fun h => memn h (d_closed s)) (d_handed s) = true
+  | None => False
+  end.
+Proof. exact same_schedule_now_closes. Qed.
+
+(** Reachable states of that model in which the hypotheses of the theorems
+    above hold non-trivially: the loop left with a handler waiting in
+    sendAccept behind a full backlog -- an internal step exists (its timer),
+    and the measure bounds what is left. *)
+Example C04_ex_dial_parked_state :
+  match dexec gen_ecfg gen_dshape dinit
+          ((map DDial [1;2;3;4;5;6;7;8;9;10;11] ++
+            flat_map (fun h => [DArm h 1; DAddStep h; DExitOK h]) [1;2;3;4;5;6;7;8;9;10] ++ [DLoss])%list) with
+  | Some s => d_serve s = LExiting /\ List.length (d_incoming s) = 10%nat /\
+              dstep gen_ecfg gen_dshape s (DArm 11 1) = None /\
+              dmeasure s = 18%nat
+  | None => False
+  end.
+Proof. vm_compute. repeat split. Qed.
+
+(** Side modes: the failed dial's history with cleanUp as it is now ends
+    with the orphan closed; a dial that succeeds is not affected. *)
+Example C04_ex_side_failed_dial_now_closed :
+  ShutdownSide.wait_enabled (ShutdownSide.srun true (ShutdownSide.mkS Mailbox.office_init []) ShutdownSide.failed_dial) 7 = true /\
+  ShutdownSide.chan_of (ShutdownSide.s_office (ShutdownSide.srun true (ShutdownSide.mkS Mailbox.office_init []) ShutdownSide.failed_dial)) 0 = Some None.
+Proof. exact ShutdownSide.failed_dial_now_closed. Qed.
